@@ -27,10 +27,14 @@ def c01(B, K, D_, raw, longs=(), bigK=None, bigD=None):
     runs.append({"harness": "vxH01Rread", "args": [str(max(D_, 4))], "files": F, "raw": raw, "reach": ["ok"], "bounds": f"InitRread/SetRreadCount, count 0..{max(D_,4)}"})
     for L in longs:
         for t in (100, 102, 104, 107, 110, 114, 125, 126):
+            if L > 60000 and t in (125, 126):
+                continue  # a stat record with a 65535-byte string is not representable (its size[2] would overflow)
             for dotu in ("false", "true"):
                 runs.append({"harness": "vxH01Msg", "args": [str(t), dotu, "1", "1", "1", str(L)], "files": F, "reach": ["ok"], "max_steps": 400000000,
                              "bounds": f"type {t} dotu={dotu}: first string exactly {L} bytes (all symbolic)"})
         for dotu in ("false", "true"):
+            if L > 60000:
+                continue
             runs.append({"harness": "vxH01Stat", "args": [dotu, "1", str(L)], "files": F, "reach": ["ok"], "max_steps": 400000000, "bounds": f"stat alone, name of {L} bytes"})
     if bigK:
         for t in (110, 111):
